@@ -477,10 +477,26 @@ func enumCheck[K any](ad *adapter[K], md *model, op sim.Op, idx int) *sim.Violat
 	case "Range":
 		ad.l.Range(cb)
 	case "All":
-		for k, v := range ad.l.All() {
+		// the sequence value is obtained once and ranged twice: an iter.Seq2 is a value the
+		// caller may keep, and every range over it is "All"
+		seq := ad.l.All()
+		for k, v := range seq {
 			if !cb(k, v) {
 				break
 			}
+		}
+		var ks2 []K
+		var vs2 []int
+		for k, v := range seq {
+			ks2 = append(ks2, k)
+			vs2 = append(vs2, v)
+			if len(ks2) > 4*domain {
+				break
+			}
+		}
+		if v := cmpEnum(ad, md, "All", idx, ks2, vs2, want, true); v != nil {
+			v.Detail += " [second range over the same sequence value]"
+			return v
 		}
 	case "RangeWithStart":
 		ad.l.RangeWithStart(ad.mk(op.K), cb)
